@@ -1,4 +1,5 @@
 import Driver.PyDispatch
+import Driver.PyImplied
 open Driver
 
 def dispatch (line : String) : String :=
@@ -12,6 +13,9 @@ def dispatch (line : String) : String :=
   | "fill" :: args => handleFill args
   | "charptr" :: args => handleCharPtr args
   | "fillchar" :: args => handleFillChar args
+  | "irender" :: args => handleIRender args
+  | "ieval" :: args => handleIEval args
+  | "descr" :: args => handleDescr args
   | _ => "bad-op"
 
 partial def loop (h : IO.FS.Stream) (out : IO.FS.Stream) : IO Unit := do
